@@ -232,6 +232,7 @@ func runC17(e *Engine, r *Report) {
 	ruleSendQueueWorkerCleanup(e, r)
 	rulePoisonBlocking(e, r)
 	ruleHintVoting(e, r)
+	ruleQuiesceActivity(e, r)
 }
 
 // c17Tables: node.tick advances every table clock on every path; gc reachable.
